@@ -540,6 +540,7 @@ pub fn run_check(check: &dyn Check, opts: &Options) -> i32 {
     let mut violations = 0u64;
     let mut known_hit: Vec<Value> = Vec::new();
     let mut matched_known: std::collections::BTreeSet<String> = Default::default();
+    let mut unreproduced_hangs = 0u64;
     let mut reported: Vec<Value> = Vec::new();
     let mut min_budget_total = 3000i64;
 
@@ -584,6 +585,17 @@ pub fn run_check(check: &dyn Check, opts: &Options) -> i32 {
             if r2.findings.iter().any(|f| &f.violation.signature(id) == sig) {
                 plan = g.finding.plan.clone();
                 violation = g.finding.violation.clone();
+            } else if g.finding.violation.class == "hang" {
+                // a hang is the one verdict that rests on a timer and on the state of a long-lived
+                // worker process (hours of contained panics and refused allocations in the thorough
+                // tier of C15): when the announced sub-case terminates in a fresh process it is not
+                // a property of the code under test. Reported, counted, not a verdict either way.
+                println!(
+                    "nsim: warning: a worker was killed as hung in case {} ({sig}); the announced sub-case terminates in a fresh process: no verdict on it",
+                    g.first_idx
+                );
+                unreproduced_hangs += 1;
+                continue;
             } else {
                 harness_errors.push(format!(
                     "non-deterministic failure: {sig} did not reproduce in a fresh process (case {})",
@@ -639,6 +651,9 @@ pub fn run_check(check: &dyn Check, opts: &Options) -> i32 {
         if unbuildable * 2 > n_cases {
             harness_errors.push(format!("{unbuildable} of {n_cases} workloads could not be generated: no verdict"));
         }
+    }
+    if unreproduced_hangs > 0 {
+        println!("nsim: {unreproduced_hangs} hang report(s) did not reproduce in a fresh process and carry no verdict (see the warnings above)");
     }
     // every listed known finding of this property is named on every run; the ones this run did not
     // reach (other seed, other tier) say so
